@@ -90,6 +90,9 @@ type sccp struct {
 	// hooks lets a rule give meaning to calls SCCP does not model
 	// (e.g. a scanner read returning a fixed token). Return ok=false to decline.
 	hook func(call *ssa.Call, args []cval) (results []cval, ok bool)
+	// override binds chosen SSA values (loads, calls) to constants: the
+	// "finite enumerated input" a table is extracted over.
+	override map[ssa.Value]cval
 }
 
 func (p *Program) newSCCP() *sccp { return &sccp{p: p, maxDepth: 4} }
@@ -235,6 +238,11 @@ func isBoolConst(c cval) (bool, bool) {
 }
 
 func (r *sccpRun) step(b *ssa.BasicBlock, in ssa.Instruction) bool {
+	if v, ok := in.(ssa.Value); ok && r.s.override != nil {
+		if c, ok := r.s.override[v]; ok {
+			return r.set(v, c)
+		}
+	}
 	switch x := in.(type) {
 	case *ssa.If:
 		c := r.get(x.Cond)
